@@ -21,16 +21,14 @@
 //! Not judged: which error a failing plaintext handshake returns; pnet ends with different keys;
 //! whether malformed key files are `Err` (only: no panic, and an accepted text names a key that survives
 //! print/parse).
-use std::{str::FromStr, sync::atomic::AtomicU32, time::Duration};
+use std::{str::FromStr, sync::atomic::AtomicU32};
 
 use futures::{AsyncReadExt, AsyncWriteExt};
 use libp2p_core::upgrade::{InboundConnectionUpgrade, OutboundConnectionUpgrade};
 use libp2p_identity::PeerId;
 use libp2p_pnet::{PnetConfig, PreSharedKey};
 use vmon::{
-    Args, Check, Rng, Sig, catch,
-    exec::block_on_timeout,
-    hex, json, pb,
+    Args, Check, Rng, Sig, catch, hex, json, pb,
     pipe::{Sched, pipe},
 };
 
@@ -40,7 +38,6 @@ static S_PT: AtomicU32 = AtomicU32::new(0);
 static S_PN: AtomicU32 = AtomicU32::new(0);
 static S_PSK: AtomicU32 = AtomicU32::new(0);
 
-const WATCHDOG: Duration = Duration::from_secs(15);
 
 fn tagged(rng: &mut Rng, n: usize, tag: u8) -> Vec<u8> {
     // position-dependent bytes so that reordering / duplication / loss shows
@@ -140,12 +137,22 @@ fn plaintext_raw_case(check: &Check, rng: &mut Rng) {
     };
     let res = catch(|| {
         let fut = if inbound { cfg.upgrade_inbound(a, "/plaintext/2.0.0") } else { cfg.upgrade_outbound(a, "/plaintext/2.0.0") };
-        block_on_timeout(fut, WATCHDOG)
+        drive(fut, 5_000_000)
     });
     let res = match res {
         Err(p) => return check.violation(format!("panic@{}", p.site()), format!("plaintext upgrade panicked: {}", p.msg), witness()),
-        Ok(None) => return check.inconclusive("plaintext upgrade watchdog"),
-        Ok(Some(r)) => r,
+        Ok(Driven::Budget) => return check.inconclusive("plaintext upgrade poll budget"),
+        Ok(Driven::Stalled) => {
+            // waiting for more bytes from a remote that sent a short / garbage frame is fine; with a complete
+            // matching exchange in the pipe it is a lost wake-up
+            if claim == Claim::Matching {
+                check.violation("plaintext-matching-handshake-stalls", "complete matching exchange delivered, upgrade never resolves", witness());
+            }
+            check.count(&format!("plaintext_{claim:?}_stalled"), 1);
+            check.case(Sig::new().bytes(&wire[..exchange_len]).u64(follow_len as u64).str(&sched_desc).0, true);
+            return;
+        }
+        Ok(Driven::Done(r)) => r,
     };
     check.count(&format!("plaintext_{claim:?}"), 1);
     match (claim, res) {
@@ -160,12 +167,13 @@ fn plaintext_raw_case(check: &Check, rng: &mut Rng) {
             b2a.inject(&later);
             drop(b); // remote closes: EOF after the data
             let mut got = vec![];
-            let rd = catch(|| block_on_timeout(async { out.read_to_end(&mut got).await }, WATCHDOG));
+            let rd = catch(|| drive(async { out.read_to_end(&mut got).await }, 5_000_000));
             match rd {
                 Err(p) => return check.violation(format!("panic@{}", p.site()), p.msg.clone(), witness()),
-                Ok(None) => return check.inconclusive("plaintext read watchdog"),
-                Ok(Some(Err(e))) => check.violation("plaintext-read-error-after-handshake", format!("{e}"), witness()),
-                Ok(Some(Ok(_))) => {}
+                Ok(Driven::Budget) => return check.inconclusive("plaintext read poll budget"),
+                Ok(Driven::Stalled) => return check.violation("plaintext-read-stalls", "remote closed, reader never sees EOF", witness()),
+                Ok(Driven::Done(Err(e))) => check.violation("plaintext-read-error-after-handshake", format!("{e}"), witness()),
+                Ok(Driven::Done(Ok(_))) => {}
             }
             let want = [followup.clone(), later.clone()].concat();
             if got != want {
@@ -197,9 +205,6 @@ fn plaintext_raw_case(check: &Check, rng: &mut Rng) {
 // ---------------------------------------------------------------------------------------------
 
 fn plaintext_pair_case(check: &Check, rng: &mut Rng) {
-    if watchdog_budget_spent(check) {
-        return;
-    }
     let ka = gen_key(rng.usize(2), rng);
     let kb = gen_key(rng.usize(2), rng);
     let (ida, idb) = (PeerId::from_public_key(&ka.public()), PeerId::from_public_key(&kb.public()));
@@ -229,13 +234,11 @@ fn plaintext_pair_case(check: &Check, rng: &mut Rng) {
         Ok::<_, String>((peer, got))
     };
     let witness = || json!({"schedules": desc, "a_writes": data_a.len(), "b_writes": data_b.len()});
-    match catch(|| block_on_timeout(futures::future::join(fa, fb), WATCHDOG)) {
+    match catch(|| drive(futures::future::join(fa, fb), 5_000_000)) {
         Err(p) => check.violation(format!("panic@{}", p.site()), p.msg.clone(), witness()),
-        Ok(None) => {
-            check.count("watchdog_fired", 1);
-            check.inconclusive("plaintext pair watchdog")
-        }
-        Ok(Some((ra, rb))) => {
+        Ok(Driven::Budget) => check.inconclusive("plaintext pair poll budget"),
+        Ok(Driven::Stalled) => check.violation("plaintext-honest-pair-stalls", "both sides wait forever on a lossless pipe (no outstanding waker)", witness()),
+        Ok(Driven::Done((ra, rb))) => {
             match (ra, rb) {
                 (Ok((pa, ga)), Ok((pb_, gb))) => {
                     if pa != idb || pb_ != ida {
@@ -257,15 +260,8 @@ fn plaintext_pair_case(check: &Check, rng: &mut Rng) {
 // (c) pnet transparency
 // ---------------------------------------------------------------------------------------------
 
-/// budget guard: every watchdog expiry costs WATCHDOG seconds; stop starting cases after a few
-fn watchdog_budget_spent(check: &Check) -> bool {
-    check.counter("watchdog_fired") >= 24
-}
 
 fn pnet_case(check: &Check, rng: &mut Rng) {
-    if watchdog_budget_spent(check) {
-        return;
-    }
     let mut key = [0u8; 32];
     rng.fill(&mut key);
     let psk = PreSharedKey::new(key);
@@ -327,10 +323,11 @@ fn pnet_case(check: &Check, rng: &mut Rng) {
     let witness = || json!({"schedules": desc, "capacity_a2b": ca, "capacity_b2a": cb, "a_script": wa.iter().map(|(c, f)| json!([c.len(), f])).collect::<Vec<_>>(),
         "b_script": wb.iter().map(|(c, f)| json!([c.len(), f])).collect::<Vec<_>>(), "read_sizes": read_sizes, "key_hex": hex(&key)});
     let fut = futures::future::join(side(a, wa.clone(), read_sizes.clone(), a2b.clone(), ca), side(b, wb.clone(), read_sizes.clone(), b2a.clone(), cb));
-    match catch(|| block_on_timeout(fut, WATCHDOG)) {
+    let poll_budget = 2_000_000 + 400 * (sent_a.len() + sent_b.len()) as u64;
+    match catch(|| drive(fut, poll_budget)) {
         Err(p) => check.violation(format!("panic@{}", p.site()), format!("pnet panicked: {}", p.msg), witness()),
-        Ok(None) => {
-            check.count("watchdog_fired", 1);
+        Ok(Driven::Stalled) => check.violation("pnet-stream-stalls", "written and closed, but the peer's read never completes (logical deadlock, no outstanding waker)", witness()),
+        Ok(Driven::Budget) => {
             // logical, not temporal: a stream cipher puts exactly one byte on the wire per payload byte (after the
             // 24-byte nonce); more than that means bytes were re-sent
             for (who, ctl, sent) in [("a-to-b", &a2b, &sent_a), ("b-to-a", &b2a, &sent_b)] {
@@ -338,9 +335,9 @@ fn pnet_case(check: &Check, rng: &mut Rng) {
                     check.violation("pnet-wire-bytes-exceed-payload", format!("{who}: {} bytes on the wire for {} payload bytes + 24 nonce bytes", ctl.written(), sent.len()), witness());
                 }
             }
-            check.inconclusive("pnet watchdog")
+            check.inconclusive("pnet poll budget")
         }
-        Ok(Some((ra, rb))) => {
+        Ok(Driven::Done((ra, rb))) => {
             for (who, got, want) in [("b-to-a", &ra, &sent_b), ("a-to-b", &rb, &sent_a)] {
                 match got {
                     Err(e) => check.violation(format!("pnet-io-error-{}", e.split(':').next().unwrap_or("?")), format!("{who}: {e}"), witness()),
